@@ -44,6 +44,7 @@ type RType struct{ T types.Type }
 type OpaqueErr struct {
 	Msg   string
 	Cause Value
+	Errno int
 }
 
 type EngineErr struct{ Msg string }
